@@ -467,6 +467,31 @@ def user_program_cases(ctx):
             ctx.evaluations += 1
             ctx.fail({"move": "program/move_by_waypoints", "kind": "valid-input-rejected", "error": type(e).__name__}, {"move": "program/move_by_waypoints", "call": lab},
                      f"{lab}: refused at definition: {type(e).__name__}: {str(e)[:120]}")
+    # --- one user helper that only calls a library move, shared by programs compiled for DIFFERENT layouts one after the other ---
+    SA, SB = two_col_zone.get_spec(2, 3, 10.0, 2.0), two_col_zone.get_spec(2, 3, 16.0, 2.0)
+    helper = kernels.define("@move\ndef relocate(sx: ilist.IList[int, Any], sy: ilist.IList[int, Any], dx: ilist.IList[int, Any], dy: ilist.IList[int, Any]):\n    rearrange(sx, sy, dx, dy)\n",
+                            rearrange=two_col_zone.rearrange)["relocate"]
+    sx, sy, dx, dy = [0, 2], [0, 1], [1, 3], [1, 2]
+    for order in (("A", "B", "A"), ("B", "A")):
+        for dec in ("(arch_spec=S)", "(arch_spec=S, aggressive=True)", ""):
+            for step, name in enumerate(order):
+                Sx = {"A": SA, "B": SB}[name]
+                zone = Sx.layout.static_traps["traps"]
+                src_s = [(F(zone.x_positions[i]), F(zone.y_positions[j])) for i in sx for j in sy]
+                dst_s = [(F(zone.x_positions[i]), F(zone.y_positions[j])) for i in dx for j in dy]
+
+                def end_h(before, src_s=src_s, dst_s=dst_s):
+                    m = dict(zip(src_s, dst_s))
+                    return {a: m.get(p, p) for p, a in before.items()}
+                lab = f"user program @move{dec} calling a shared helper around rearrange, compiled for layouts {order} in turn, step {step} (layout {name})"
+                try:
+                    m = kernels.define(f"@move{dec}\ndef prog():\n    relocate({sx}, {sy}, {dx}, {dy})\n", S=Sx, relocate=helper)["prog"]
+                    n += 1
+                    judge(ctx, "program/rearrange", lab, Sx, m, (), True, end_h, extra_occupied=src_s, sig_extra={"shared_helper_history": True})
+                except Exception as e:
+                    ctx.evaluations += 1
+                    ctx.fail({"move": "program/rearrange", "kind": "valid-input-rejected", "error": type(e).__name__, "shared_helper_history": True}, {"move": "program/rearrange", "call": lab},
+                             f"{lab}: refused at definition: {type(e).__name__}: {str(e)[:120]}")
     ctx.count("library moves called from user programs (literal lists / sequences with early returns) x 8 compilation routes", n)
 
 
